@@ -17,6 +17,7 @@ def check(model, R, tier):
     check_layer_geom(model, R)
     RC.check_outsize(model, R, 'C06')
     RC.check_empty(model, R, 'C06')
+    RC.check_strided(model, R, 'C06')
     check_pad(model, R)
     check_bn_form(model, R)
     check_enum(model, R)
